@@ -53,7 +53,8 @@ def histories(check, vh, name, args, full, timeout=None):
     """Run histories on the real code, then validate the recorded stream with Trace_Pools."""
     timeout = timeout or (900 if check.tier == "quick" else 14400)
     wd = common.workdir("%s-%s" % (check.prop, name))
-    common.run([vh, "run-history", "-out", wd] + (["-full"] if full else []) + [str(a) for a in args], timeout=timeout)
+    # a history that kills the driver (a corrupted pool can end in a fatal error or an endless loop) is reported as such
+    common.run_resumable([vh, "run-history", "-out", wd] + (["-full"] if full else []) + [str(a) for a in args], wd, name, timeout=timeout)
     meta = json.load(open(os.path.join(wd, "meta.json")))
     cks = schemafam.chunks(wd)
     cfg = "SPECIFICATION Spec\nINVARIANT Done\nCHECK_DEADLOCK FALSE\nCONSTANT FullStream = %s\n" % ("TRUE" if full else "FALSE")
